@@ -420,6 +420,15 @@ def run_shards(binp, work, pid, tier, run, seed, known_open, variant):
         sseed = (seed * 1000003 + i * 7919 + 1) % (2**62) or 1
         cmd = [binp, "-test.run", run["test"], "-test.timeout", "%ds" % run["timeout"][tier], "-test.count", "1"]
         if run.get("fuzz"):
+            # coverage guidance needs a binary built with the fuzzer's instrumentation (what 'go test -fuzz' adds itself)
+            fb = os.path.join(work, "vhfuzz.test")
+            if not os.path.exists(fb):
+                tags = "verif" + {"vfs": ",verifvfs", "vsync": ",verifvsync", "go126": ",verifbubble"}.get(variant, "")
+                rb = sh([gobin(variant), "test", "-c", "-vet=off", "-tags", tags, "-gcflags=all=-d=libfuzzer", "-o", fb, "."],
+                        cwd=os.path.join(work, "harness"), env=goenv(), stdout=subprocess.PIPE, stderr=subprocess.STDOUT, text=True)
+                if rb.returncode != 0:
+                    raise Infra("instrumented harness build failed:\n%s" % rb.stdout[-4000:])
+            binp = fb
             # native fuzzing cannot be pinned to a seed: the saved failing input is the reproducible unit
             cmd = [binp, "-test.run", "^$", "-test.fuzz", run["test"], "-test.fuzztime", "%ds" % run["fuzz"], "-test.fuzzcachedir", os.path.join(work, "fuzzcache"),
                    "-test.parallel", str(NCPU), "-test.timeout", "%ds" % (run["fuzz"] + 300)]
@@ -453,6 +462,11 @@ def run_shards(binp, work, pid, tier, run, seed, known_open, variant):
             o = (o or "") + "\n[driver] shard killed after driver timeout"
             res.append(dict(shard=i, rc=-9, out=o, outdir=out, cwd=cwd, seed=sseed, per=per))
             continue
+        if run.get("fuzz") and p.returncode != 0 and os.path.isdir(os.path.join(cwd, "testdata", "fuzz")):
+            # keep the inputs the fuzzer saved (a crashed worker leaves no failure record of the harness)
+            keep = os.path.join(WORK, "fuzz-crashers-%s" % pid)
+            shutil.copytree(os.path.join(cwd, "testdata", "fuzz"), keep, dirs_exist_ok=True)
+            o = (o or "") + "\n[driver] inputs saved by the fuzzer were copied to %s" % keep
         res.append(dict(shard=i, rc=p.returncode, out=o, outdir=out, cwd=cwd, seed=sseed, per=per))
     return res
 
